@@ -102,6 +102,22 @@ def prove_valid(name, hyps, goal, witness=None, nsamples=None, replay=None, time
     try:
         if goal is True or goal is sp.true:
             return Obl(name, 'discharged', 'sympy-assumptions', time.time() - t0, goal=goal_text or 'True')
+        # sign goals on power-law expressions: sign analysis of the normaliser (factor signs from the hypotheses)
+        if isinstance(goal, sp.Basic) and goal.is_Relational and goal.rhs == 0 and goal.rel_op in ('!=', '>', '<', '>=', '<='):
+            try:
+                nz_ = alg.Normalizer(list(hyps), 1500)
+                for h_ in hyps:
+                    if isinstance(h_, sp.Basic) and h_.is_Relational and h_.rel_op == '>' and h_.rhs == 0 and not h_.lhs.is_Symbol and h_.lhs.atoms(sp.Pow):
+                        try: nz_.assume_positive(h_.lhs)
+                        except Exception: pass
+                N_ = nz_.norm(goal.lhs)
+                cf_, fl_, sg_ = nz_.factors(N_)
+                if cf_ != 0:
+                    sgn_ = sg_ if cf_ > 0 else -sg_
+                    if (goal.rel_op == '!=') or (goal.rel_op in ('>', '>=') and sgn_ > 0) or (goal.rel_op in ('<', '<=') and sgn_ < 0):
+                        return Obl(name, 'discharged', 'ring-sign-analysis', time.time() - t0, goal=goal_text or short(goal, 200), laws=sorted(nz_.laws))
+            except (alg.Undecided, alg.NeedSplit, Exception):
+                pass
         ok, model = smt.valid(hyps, goal, timeout_ms)
         abstracted = smt.LAST['abstracted']
         if ok:
@@ -115,7 +131,7 @@ def prove_valid(name, hyps, goal, witness=None, nsamples=None, replay=None, time
             pt = pts[0]
             return Obl(name, 'refuted', 'exact-evaluation', time.time() - t0, goal=goal_text or short(goal, 200), cex=jval(pt), replay=replay,
                        cex_raw={str(k): str(v) for k, v in pt.items()})
-        if model is not None and not abstracted:
+        if model is not None:      # confirmed by exact re-evaluation below (abstracted atoms are recomputed), otherwise discarded
             full = {s_: model.get(s_, sp.Integer(0)) for s_ in syms}
             try:
                 genuine = all(alg.eval_cond(h, full) for h in hyps) and not alg.eval_cond(goal, full)
